@@ -79,7 +79,11 @@ class CfgPrinter:
         k = info["kind"]
         if k == "setint": return "SI %d %s" % (self.vidx[info["var"]], self.expr(info["expr"]))
         if k == "setstr": return "SS %d %d %s" % (self.vidx[info["var"]], len(info["bytes"]), " ".join(map(str, info["bytes"])))
-        if k == "delete": return "DL %d" % self.vidx[info["var"]]
+        if k == "delete":
+            # with on-demand allocation and -fdelete-string-free-memory delete frees the heap buffer: no content survives
+            o = self.outs[self.vidx[info["var"]]]
+            freed = o["type"] == "STR" and "-fallocate-str-space-dynamic-on-demand" in self.flags and "-fdelete-string-free-memory" in self.flags
+            return "%s %d" % ("DF" if freed else "DL", self.vidx[info["var"]])
         if k == "append": return "AP %d" % self.vidx[info["var"]]
         if k == "appendexpr": return "AE %d %s" % (self.vidx[info["var"]], self.expr(info["expr"]))
         if k == "hook": return "HK %d" % self.m["hooks"].index(info["name"])
